@@ -17,6 +17,8 @@ def run(ctx):
     nr = exact.rescale_primitives(rep, F, scale_only=False)
     rep.floor('rescale primitives (extension exact)', nr, 4)
     nph = exact.power_helpers(rep, F)
+    npf = exact.pow_fits(ctx)
+    rep.floor('integer powers of ten checked for overflow', npf, 5)
     rep.floor('power-of-ten helpers', nph, 3)
     nn = normalform.check(rep, F)
     rep.floor('normalized() table rows', nn, 2)
